@@ -18,6 +18,7 @@ package refcount
 //@ ghostmap downer: ref -> ref once
 //@ ghostmap drun: ref -> ref owned
 //@ ghostmap dpred: ref -> ref by drun
+//@ ghostmap rsown: ref -> ref owned
 //
 //@ object RefCount
 //@   props C08 C09 C10 C13
@@ -38,6 +39,7 @@ package refcount
 //
 //@ ginv D0: forall ch: ref {downer(ch)} :: downer(ch) != nil ==> ch != nil && allocated(ch) && madein(ch, "(*RefCount).startResolveLocked")
 //@ ginv D1: forall ch: ref {downer(ch)} :: downer(ch) != nil && closed(ch) ==> drun(ch) == nil && (dpred(ch) != nil ==> closed(dpred(ch)))
+//@ ginv RS: forall ch: ref {rsown(ch)} :: rsown(ch) != nil ==> !closed(ch) && downer(ch) == nil
 //@ ginv D2: forall ch: ref {drun(ch)} :: drun(ch) != nil ==> downer(ch) != nil && !closed(ch)
 //
 //@ func NewRefCount
@@ -153,6 +155,39 @@ package refcount
 //@   ensures noref: result2 != nil ==> result1 == nil
 //
 //@ func (*RefCount).Resolve
+//@   props C10
+//@   opt frame = skip
+//@   requires r != nil && ctx != nil
+//@   ensures rel: result2 == nil ==> result1 != nil
+//
+// WaitWithReleased: the reference callback runs inside the RefCount's critical section (it reads r.nonce);
+// currResolved / currNonce are only touched there.
+//@ func (*RefCount).WaitWithReleased
+//@   props C10 C13
+//@   opt frame = skip
+//@   requires r != nil && ctx != nil
+//@   ghost makechan 1: rsown(chan) := me
+//@   assert close 1: token: rsown(refSet) == me
+//@   ghost close 1: rsown(refSet) := nil
+//@   ensures result0 != nil && result1 != nil && result1.rc == r
+//
+//@ func (*RefCount).WaitWithReleased$1
+//@   props C10 C13
+//@   opt frame = skip
+//@   opt holds = r.mtx
+//@   captured r != nil && isprom(prom) && oncep(prom) == nil
+//
+//@ func (*RefCount).WaitWithReleased$1$1
+//@   props C10 C13
+//@   opt frame = skip
+//
+// (the goroutine reads ref only after refSet is closed, i.e. after WaitWithReleased has stored the reference)
+//@ func (*RefCount).WaitWithReleased$1$1$1
+//@   props C10 C13
+//@   opt frame = skip
+//@   assumeat recv 1: refset: ref != nil && ref.rc != nil
+//
+//@ func (*RefCount).ResolveWithReleased
 //@   props C10
 //@   opt frame = skip
 //@   requires r != nil && ctx != nil
